@@ -133,6 +133,9 @@ func drawAlgoCfg(t *Tape, names []string, wraps []string) algoCfg {
 	if len(wraps) > 0 {
 		c.Wrap = wraps[t.Intn(len(wraps), "wrap")]
 	}
+	if c.Wrap == "" && t.Chance(25, "debug-log-bare") {
+		c.DebugLog = true // the algorithms' own debug lines format their arguments under the algorithm's lock
+	}
 	if c.Wrap != "" {
 		c.WinMin = []int64{1e8, 1e9, 5e8}[t.Intn(3, "win-min")]
 		c.WinMax = c.WinMin * int64(1+t.Intn(3, "win-max-mult"))
